@@ -12,7 +12,7 @@ import sys
 import time
 import traceback
 
-from . import cover, implrun, oracle, proto
+from . import cover, fingerprint, implrun, oracle, proto
 
 VERIF = oracle.VERIF
 COQ = oracle.COQ
@@ -238,6 +238,17 @@ def write_replay(pid, tier, seed, case, impl_res, model_res, failure, mod, extra
     return path
 
 
+def sweep_work(max_age_s=7200):
+    """Remove per-case scratch directories (.work/cNN_*) that a killed worker left behind."""
+    now = time.time()
+    for d in glob.glob(os.path.join(WORK, "c[0-9][0-9]_*")):
+        try:
+            if os.path.isdir(d) and now - os.path.getmtime(d) > max_age_s:
+                shutil.rmtree(d, ignore_errors=True)
+        except OSError:
+            pass
+
+
 def main(argv):
     if len(argv) < 2:
         print("usage: check <ID> quick|thorough [--replay file]")
@@ -248,6 +259,7 @@ def main(argv):
         replay = argv[argv.index("--replay") + 1]
     seed = int(os.environ.get("VERIF_SEED", "0"))
     t_start = time.time()
+    sweep_work()
     sys.path.insert(0, os.path.join(VERIF, "harness"))
     mod = importlib.import_module("props." + pid.lower())
     nproc = int(os.environ.get("VERIF_NPROC", "16"))
@@ -285,6 +297,7 @@ def main(argv):
     samples = []
     concrete_failures = []
     broken_corr = []
+    extra_info = {}
     if oracle_ok:
         try:
             if replay:
@@ -299,6 +312,27 @@ def main(argv):
                         cases.append(c)
                 n_corpus = len(cases)
                 cases.extend(mod.generate(tier, seed))
+                # modelled source differs from the reviewed tree: extend the campaign with further seeds
+                try:
+                    src_changed = fingerprint.changed(os.environ.get("VERIF_REPO", "/repo"))
+                except Exception as e:  # never affects the verdict
+                    src_changed = None
+                    extra_info = {"error": repr(e)}
+                if src_changed and os.environ.get("VERIF_NO_ESCALATE") != "1":
+                    have = {case_sha(c) for c in cases}
+                    n_before = len(cases)
+                    extra_seeds = [seed + 7919 * k for k in range(1, (3 if tier == "quick" else 2))]
+                    for s2 in extra_seeds:
+                        for c in mod.generate(tier, s2):
+                            h = case_sha(c)
+                            if h not in have:
+                                have.add(h)
+                                cases.append(c)
+                    extra_info = {"changed_functions": src_changed[:40], "n_changed": len(src_changed),
+                                  "extra_seeds": extra_seeds, "extra_cases": len(cases) - n_before}
+                elif src_changed is not None and not extra_info:
+                    extra_info = {"changed_functions": src_changed[:40], "n_changed": len(src_changed),
+                                  "extra_seeds": [], "extra_cases": 0}
             results, timing = evaluate(mod, cases, timeout_s, nproc)
         except oracle.BuildError as e:
             broken_corr.append({"kind": "broken-correspondence", "reason": f"[{e.stage}] {e.log[-1500:]}"})
@@ -435,6 +469,7 @@ def main(argv):
             "known_findings_hit": sorted(known_hits),
             "impl_line_coverage": coverage_info,
             "concrete_failures": len(concrete_failures),
+            "source_fingerprint": extra_info,
         },
         "assumptions": list(getattr(mod, "ASSUMPTIONS", [])),
         "wall_s": wall,
@@ -451,6 +486,10 @@ def main(argv):
         print(f"KNOWN-FINDING: property={pid} {k['id']} {k['what']}")
     for path, suffix in violations:
         print(f"VIOLATION property={pid} replay={path}{suffix}")
+    if extra_info.get("extra_cases"):
+        print(f"[{pid} {tier}] NOTE: {extra_info['n_changed']} function(s) of preflibtools differ from the reviewed tree "
+              f"({', '.join(extra_info['changed_functions'][:4])}{' ...' if extra_info['n_changed'] > 4 else ''}): "
+              f"campaign extended by {extra_info['extra_cases']} cases (seeds {extra_info['extra_seeds']})")
     if timing.get("skipped_after_repeated_timeouts"):
         print(f"[{pid} {tier}] NOTE: {timing['skipped_after_repeated_timeouts']} cases were not evaluated (run cut short "
               f"after repeated watchdog timeouts)")
